@@ -37,7 +37,8 @@ def cases(draw):
         inputs.append(M.enc_inputs(e1))
         alts.append(M.enc_inputs(e2))
     extra = {n: M.enc(draw(st.sampled_from(gen.ANY_POOL + [(1, 2), "uid", 99])))
-             for n in draw(st.lists(st.sampled_from(["unused_1", "zz_extra", "debug", "Uid", "salt_", "name", "weights"]),
+             for n in draw(st.lists(st.sampled_from(["unused_1", "zz_extra", "debug", "Uid", "salt_", "name", "weights", "population", "input_id", "cum_weights", "k",
+                                                     "salt", "splitters", "key", "args"]),
                                     max_size=3, unique=True)) if n not in classes}
     return {"prog": prog, "classes": classes, "inputs": inputs, "alts": alts, "extra": extra,
             "perm": draw(st.integers(0, 5)), "newname": draw(st.sampled_from(["renamed", "other_exp", "x9", "Exp", "partial", "deterministic_choice", "str", "map",
